@@ -47,6 +47,8 @@ type Job struct {
 	Pos     []int    `json:"pos,omitempty"`  // linecol: offsets
 	Hist    []Job    `json:"hist,omitempty"` // history: runs executed in order in one process
 	Tag     string   `json:"tag,omitempty"`
+	Args    []string `json:"args,omitempty"` // free-form, for custom job kinds
+	N       int      `json:"n,omitempty"`    // free-form, for custom job kinds
 }
 
 type Ev struct {
@@ -89,6 +91,7 @@ type Result struct {
 	Sexpr    string    `json:"sexpr,omitempty"`
 	Hist     []Result  `json:"hist,omitempty"`
 	Detail   string    `json:"detail,omitempty"`
+	Out      []string  `json:"out,omitempty"` // free-form, for custom job kinds
 }
 
 // scheduled reader: hands out exactly the scheduled chunks.
@@ -341,8 +344,15 @@ func execJob(j *Job) Result {
 		}
 		return res
 	}
+	if f, ok := jobKinds[j.Kind]; ok {
+		return f(j)
+	}
 	return Result{Class: "other", Detail: "unknown job kind " + j.Kind}
 }
+
+// jobKinds lets a property file add its own job kinds (executed in the worker
+// subprocess): register in an init() with jobKinds["name"] = func.
+var jobKinds = map[string]func(j *Job) Result{}
 
 func workerMain() {
 	rd := bufio.NewReaderSize(os.Stdin, 1<<20)
